@@ -363,6 +363,14 @@ def checkCase (j : Json) : Except String Verdict := do
               if s.refresh < 0 then (match refreshWhy Pbig 0 s0 a with | some .grace => "outage" | some .confirmed => "confirmed" | none => "refused")
               else if s.valid < 0 then (match validateWhy Pbig 0 s0 a with | some .grace => "outage" | some .confirmed => "confirmed" | none => "refused")
               else "none"
+            -- the other direction: an outage answer inside the window (a fresh episode, or less than G after its first
+            -- answer) lets the session through — one successful check has ended any earlier episode
+            if kind == "outage" && !reached && ttlG > 0 && requestValidators lower P s then
+              let inside := match episode.find? (·.1 == host) with
+                | none => true
+                | some (_, t0) => clock + 2 < t0 + ttlG
+              if inside then
+                v := v.mon "C05" "outage_within_grace_refused" idx s!"episode {(episode.find? (·.1 == host)).map (·.2)}, now {clock}, grace TTL {ttlG}, status {status}"
             if kind == "outage" && reached then
               match episode.find? (·.1 == host) with
               | none => episode := (host, clock) :: episode
